@@ -202,10 +202,54 @@ DualProblems(ev) ==
 DualStat(ev) == PrintT(<<"DUAL", ev.id, Cardinality({k \in 1..Len(ev.rows) : FirstNamed(ev, k) /\ Slope(ev, k).def}),
                          Cardinality({k \in 1..Len(ev.rows) : FirstNamed(ev, k) /\ Slope(ev, k).def /\ ~RZero(Slope(ev, k).v)})>>)
 
+---------------------------------------------------------------------------
+(* C15: limits and tolerances.  The search steps and the timer are not       *)
+(* observable; the specification states which RETURNS are allowed for a call *)
+(* Call(model, gap, limit):                                                  *)
+(*   invalid gap (negative, NaN, infinite)        -> an error, nothing else   *)
+(*   a solution labelled Optimal                  -> feasible point, value    *)
+(*        within the requested gap of the exact optimum                      *)
+(*   a solution labelled Feasible                 -> feasible point           *)
+(*   an error                                     -> allowed when a time      *)
+(*        limit was set (stopped before a feasible point was known), or when *)
+(*        it is the exact verdict (infeasible / unbounded)                   *)
+InvalidGap(o) == o.gapk \in {"nan", "inf", "-inf"} \/ (o.gapk = "num" /\ o.gapn < 0)
+GapOf(o) == IF o.gapk = "num" THEN Norm(o.gapn, o.gapd) ELSE R(0)
+WithinGap(ev, opt) ==
+   LET o == ev.sol.value IN
+   IF o.snap THEN
+      LET w == Norm(o.n, o.d)
+          diff == RAbs(RSub(w, opt))
+          scale == RMax(RAbs(w), RAbs(opt))
+      IN  RLe(diff, RAdd(RMul(GapOf(ev.opt), scale), RMul(<<1, 1000000>>, RMax(R(1), RAbs(opt)))))
+   ELSE \* coarse: value * opt.d vs opt.n * CS, tolerance gap * scale + 1e-3
+      LET g == GapOf(ev.opt)
+          sc == IF CAbs(o.c) * opt[2] > CAbs(opt[1]) * CS THEN CAbs(o.c) * opt[2] ELSE CAbs(opt[1]) * CS
+      IN  CAbs(o.c * opt[2] - opt[1] * CS) * g[2] <= g[1] * sc + CTol * opt[2] * g[2]
+LimitsProblems(ev) ==
+   IF ev.out \in {"timeout", "panic"} THEN {"call did not return normally: " \o ev.out}
+   ELSE IF InvalidGap(ev.opt) THEN (IF ev.out = "error" THEN {} ELSE {"invalid MIP gap accepted"})
+   ELSE LET vd == Verdict(ev) IN
+        IF ev.out = "solution" THEN
+           (IF PointProblems(ev) # {} THEN {"returned solution is not feasible / self-consistent: " \o (CHOOSE p \in PointProblems(ev) : TRUE)} ELSE {})
+           \cup (IF ev.sol.status = "Optimal" THEN
+                    (IF vd.st # "opt" THEN {"labelled optimal but the model has no finite optimum"}
+                     ELSE IF ~WithinGap(ev, vd.v) THEN {"labelled optimal but not within the requested gap of the true optimum"} ELSE {})
+                 ELSE IF ev.sol.status = "Feasible" THEN {}
+                 ELSE {"unexpected status label " \o ev.sol.status})
+        ELSE \* error
+           IF ev.opt.limit >= 0 THEN {}
+           ELSE IF ev.err.kind = "Infeasible" /\ vd.st = "inf" THEN {}
+           ELSE IF ev.err.kind = "Unbounded" /\ vd.st = "unb" THEN {}
+           ELSE {"error " \o ev.err.kind \o " without a limit on a model with verdict " \o vd.st}
+
 Emit(p, ev, bad) == IF bad = {} THEN TRUE
                     ELSE PrintT(<<"REJECT", p, ev.id, CHOOSE b \in bad : TRUE, ToJson(bad)>>)
 Check(ev) ==
-   IF ev.out = "panic" THEN PrintT(<<"REJECT", "C04", ev.id, "panic", "">>) /\ PrintT(<<"REJECT", "C05", ev.id, "panic", "">>)
+   IF Has("C15") THEN
+      Emit("C15", ev, LimitsProblems(ev)) /\
+      PrintT(<<"STAT", ev.id, ev.out, IF ev.out = "solution" THEN ev.sol.status ELSE IF ev.out = "error" THEN ev.err.kind ELSE "">>)
+   ELSE IF ev.out = "panic" THEN PrintT(<<"REJECT", "C04", ev.id, "panic", "">>) /\ PrintT(<<"REJECT", "C05", ev.id, "panic", "">>)
    ELSE IF ev.out = "timeout" THEN
         PrintT(<<"REJECT", "C05", ev.id, "no verdict: the call did not return within the watchdog limit", "">>)
    ELSE IF ~Accepts(ev) THEN
